@@ -83,7 +83,7 @@ def make_driver(cfg, T, asize, options, mode):
         fork = None
         for t in range(T + 1):
             if t == T - 1 and mode == 'exact':
-                fork = _copy.deepcopy(ex)        # a checkpoint of the explainer, taken before the original moves on
+                fork = choice.safe_copy(ex)        # a checkpoint of the explainer, taken before the original moves on
             if t == T:
                 if fork is None:
                     break
